@@ -448,4 +448,63 @@ theorem c11_repCCPC (hc : CfgOK c) (hw : WFW c cu w) (p n : Nat) (a : List Byte)
   rw [List.drop_zero, w2_take_min, ← hof] at h2
   exact c11_mut (w2_spec_replace _ _ p n hp) h2
 
+
+/-! ### iterator overloads of `replace` -/
+
+/-- a non-empty iterator range `[f, l)` of `s` whose first element is dereferenceable: the index arithmetic of
+    the iterator overloads computes the std::string position and count -/
+theorem w2_it (hc : CfgOK c) {s : FStr} (hs : WF c s) (f l : ItArg) (h : itRange (abs s) f l = true) :
+    itOf c s f ≠ itEnd c ∧ itOf c s f ≠ itOf c s l ∧
+    itMinus c s (itOf c s f) (itBegin c s) = itPos (abs s) f ∧
+    itCount1 c s (itOf c s f) (itOf c s l) (itPos (abs s) f) = itPos (abs s) l - itPos (abs s) f ∧
+    itMinus c s (itOf c s l) (itOf c s f) = itPos (abs s) l - itPos (abs s) f ∧
+    itPos (abs s) f ≤ s.len ∧ itPos (abs s) f ≤ itPos (abs s) l := by
+  have hl := abs_length hs
+  have h1 := hs.2.1
+  have h2 := hc.hW
+  cases f with
+  | fin => simp [itRange, derefable] at h
+  | pos k =>
+    cases l with
+    | fin =>
+      simp only [itRange, derefable, itPos, hl, Bool.and_eq_true, decide_eq_true_eq] at h
+      simp only [itOf, itAt, itMinus, itCount1, itBegin, subW, itEnd, itPos, hl]
+      refine ⟨?_, ?_, ?_, ?_, ?_, ?_, ?_⟩ <;> (repeat' split) <;> first | omega | exact absurd trivial (by assumption)
+    | pos m =>
+      simp only [itRange, derefable, itPos, hl, Bool.and_eq_true, decide_eq_true_eq] at h
+      simp only [itOf, itAt, itMinus, itCount1, itBegin, subW, itEnd, itPos, hl]
+      refine ⟨?_, ?_, ?_, ?_, ?_, ?_, ?_⟩ <;> (repeat' split) <;> first | omega | exact absurd trivial (by assumption)
+
+theorem w2_spec_itRep (x r : Str) (pf pl : Nat) (h1 : pf ≤ pl) (h2 : pf ≤ x.length) :
+    (if pf > pl then (.throw .out_of_range : Res (Str × Out)) else thenS (StdString.replace x pf (pl - pf) r)) =
+      .ok (x.take pf ++ r ++ x.drop (pf + (pl - pf)), .unit) := by
+  rw [if_neg (by omega)]
+  exact w2_spec_replace x r pf _ h2
+
+theorem w2_drop_take_app (d : Str) (i j : Nat) (hj : j ≤ d.length) :
+    (((d ++ [0]).drop i).drop 0).take (j - i) = (d.drop i).take (j - i) := by
+  apply List.ext_getElem?
+  intro k
+  fs_pointwise
+
+theorem c11_repItItSIt (hc : CfgOK c) (hw : WFW c cu w) (f l : ItArg) (d : Str) (i j : Nat)
+    (hd : inDomain (npos c) w (.repItItSIt f l d i j) = true) : C11Holds c cu w (.repItItSIt f l d i j) := by
+  intro w' o h
+  simp only [step] at h
+  obtain ⟨s', h1, rfl, rfl⟩ := mutS_inv h
+  simp only [inDomain, Bool.and_eq_true, decide_eq_true_eq] at hd
+  obtain ⟨⟨hr, hij⟩, hjd⟩ := hd
+  obtain ⟨e1, e2, e3, e4, _, e6, e7⟩ := w2_it hc hw.1 f l hr
+  have hl := abs_length hw.1
+  unfold replaceItSIt at h1
+  rw [if_neg (by intro hh; rcases hh with hh | hh | hh <;> first | exact e1 hh | exact e2 hh | omega)] at h1
+  simp only [] at h1
+  rw [e3, e4] at h1
+  have h2 := replaceImpl_abs hc hw.1 _ _ (a := (d ++ [0]).drop i) (pos2 := 0) (count2 := j - i) e6
+    (by simp; omega) h1
+  rw [w2_drop_take_app d i j hjd] at h2
+  refine c11_mut ?_ h2
+  simp only [spec]
+  exact w2_spec_itRep _ _ _ _ e7 (by omega)
+
 end CelmaVerif.FixedString
